@@ -138,4 +138,16 @@ theorem SInv.confluent {e : Env} {g x y : St} (hx : SInv e g x) (hy : SInv e g y
   rw [hpy] at ty
   exact walk_confluent e x y lh lh' dest' prune prune' g hpl hinv hokx hoky hpx hpy hcx hcy tx ty
 
+/-- the block any element of the trace stands on belongs to one of the two branches -/
+theorem walkTrace_pointer_mem (e : Env) (s : St) (lh : Int) (dest : Nat) (prune : Bool) (W : WalkTree e s.pointer dest)
+    (x : St) (hx : x ∈ walkTrace e s lh dest prune) :
+    x.pointer ∈ ancestors e (e.blocks.length + 1) s.pointer ∨ x.pointer ∈ ancestors e (e.blocks.length + 1) dest := by
+  unfold walkTrace at hx
+  rcases List.mem_append.mp hx with hx | hx
+  · exact walkMid_pointer_mem e s lh dest prune W x hx
+  · obtain ⟨hok, A, B, _, _, hxe⟩ := mem_walkRepost e s lh dest prune x hx
+    right
+    rw [hxe, foldl_doTx_pointer, walkCore_pointer e s lh dest prune W hok]
+    exact ancestors_self_mem e dest
+
 end XV.Crash
